@@ -15,7 +15,7 @@ func sat(s int64, extraMsat uint64) uint64 { return uint64(s)*1000 + extraMsat }
 
 func spaces(thorough bool) []chanmc.Space {
 	var out []chanmc.Space
-	types := []string{"legacy", "anchors", "taproot"}
+	types := []string{"legacy", "lease", "taproot"}
 	if thorough {
 		types = chanmc.AllTypes
 	}
@@ -51,6 +51,16 @@ func spaces(thorough bool) []chanmc.Space {
 			out = append(out, b, c)
 		default:
 			out = append(out, b, d, e)
+		}
+	}
+	// Every channel type, cheaply: the eager schedule of a 1+1-HTLC + fee-update
+	// script with one cut at every point (deviation bound 2, the cut being one of the deviations).
+	for _, typ := range chanmc.AllTypes {
+		th := chanmc.Thresholds(typ, 6000, 200, 1300)
+		for _, openerB := range []bool{false, true} {
+			out = append(out, chanmc.Space{Dev: 2, P: chanmc.Params{Type: typ, OpenerB: openerB, MaxCuts: 1, CrashPoints: true, Fees: []int64{6300}, Script: []chanmc.Intent{
+				{By: 0, Amt: sat(th[1], 0), Fate: "settle"}, {By: 1, Amt: sat(th[3]+5000, 1), Fate: "malformed"},
+			}}})
 		}
 	}
 	return out
